@@ -121,7 +121,33 @@ func (g *Gen) anyIP() uint32 {
 }
 
 var xids = []uint32{0x11111111, 0x22222222, 0x33333333}
-var prls = [][]byte{nil, {1, 3, 6}, {1, 3, 6}, {3, 6, 1}, {1, 121, 3, 6, 15, 119, 252}, {1, 33, 3, 6, 15, 26, 28, 51, 58, 59}, {53, 54, 51, 6}, {6, 1}}
+// parameter request lists (option 55) of real clients and shapes around the mask/router rule
+var prls = [][]byte{nil, {1, 3, 6}, {3, 6, 1}, {1, 121, 3, 6, 15, 119, 252}, {1, 33, 3, 6, 15, 26, 28, 51, 58, 59}, {53, 54, 51, 6}, {6, 1},
+	{1}, {3}, {3, 6, 15}, {6, 121, 3}, {1, 6}, {3, 3, 1}, {1, 1, 3}, {33, 3}, {3, 33}, {6, 51, 54, 53}, {200, 3, 201}, {255, 3, 0, 1}}
+
+// prlCodes: the alphabet of random lists: mask, router, static route, the other constrained codes, codes the
+// server has no value for, pad and end
+var prlCodes = []byte{1, 3, 3, 1, 6, 33, 51, 53, 54, 121, 31, 15, 119, 252, 200, 0, 255}
+
+// anyPRL: half the time a fixed shape, else a random list (length 0-12, duplicates allowed; sometimes long)
+func (g *Gen) anyPRL() []byte {
+	r := g.R
+	if r.Bool() {
+		return prls[r.Intn(len(prls))]
+	}
+	n := r.Intn(13)
+	if r.Chance(5) {
+		n = 40 + r.Intn(60)
+	}
+	l := make([]byte, n)
+	for i := range l {
+		l[i] = prlCodes[r.Intn(len(prlCodes))]
+		if r.Chance(5) {
+			l[i] = r.Byte()
+		}
+	}
+	return l
+}
 
 func p32(x uint32) *uint32 { return &x }
 
@@ -136,7 +162,7 @@ func (g *Gen) discover(id *ident, newXid bool, req *uint32) string {
 	}
 	m := g.msg('D', id)
 	m.Req = req
-	m.Prl = prls[g.R.Intn(len(prls))]
+	m.Prl = g.anyPRL()
 	return m.Token()
 }
 
@@ -151,6 +177,7 @@ func (g *Gen) selectOfferDev(id *ident, deviate bool) string {
 	if id.offer == 0 {
 		m.Req = p32(g.anyIP())
 	}
+	m.Prl = g.anyPRL()
 	if deviate {
 		switch g.R.Intn(5) {
 		case 0, 1: // a transaction id we never made an offer under
@@ -294,7 +321,7 @@ func (g *Gen) next() string {
 		}
 		m := g.msg('D', id)
 		m.Req = req
-		m.Prl = prls[r.Intn(len(prls))]
+		m.Prl = g.anyPRL()
 		m.Bflag = r.Chance(30)
 		if r.Chance(10) {
 			m.Src = g.anyIP()
@@ -305,7 +332,7 @@ func (g *Gen) next() string {
 		return m.Token()
 	case k < 70: // REQUEST
 		m := g.msg('R', id)
-		m.Prl = prls[r.Intn(len(prls))]
+		m.Prl = g.anyPRL()
 		m.Bflag = r.Chance(20)
 		switch q := r.Intn(100); {
 		case q < 45: // SELECT of our offer (a quarter with one field outside the transaction)
@@ -691,5 +718,39 @@ func Exhaustive(r *lib.Run, kind string, mode int, depth int, nTokens int) {
 	close(jobs)
 	for w := 0; w < workers; w++ {
 		<-done
+	}
+}
+
+// PrlSweep: every parameter request list up to the given length over {1, 3, 6, 33, 51, 200}, for a
+// non-captured and a captured client: DISCOVER then the matching SELECT, both carrying the list.
+func PrlSweep(r *lib.Run, mode int, maxLen int) {
+	c := StdCfg(0, mode)
+	codes := []byte{1, 3, 6, 33, 51, 200}
+	m1 := net.HardwareAddr{2, 0, 0, 0, 0, 1}
+	first := map[bool]uint32{false: 0xc0a80002, true: 0xc0a8000a} // first pool address of net1 / net2 in StdCfg(0)
+	var lists [][]byte
+	var rec func(p []byte)
+	rec = func(p []byte) {
+		lists = append(lists, append([]byte{}, p...))
+		if len(p) == maxLen {
+			return
+		}
+		for _, x := range codes {
+			rec(append(p, x))
+		}
+	}
+	rec(nil)
+	for _, l := range lists {
+		for _, cap := range []bool{false, true} {
+			a := first[cap]
+			ops := []string{}
+			if cap {
+				ops = append(ops, "C,"+hxmac(m1))
+			}
+			ops = append(ops, Msg{Kind: 'D', Chaddr: m1, Xid: 0x11111111, Prl: l}.Token(),
+				Msg{Kind: 'R', Chaddr: m1, Xid: 0x11111111, Req: &a, Sid: &c.HostIP, Prl: l}.Token())
+			r.Do("hist", append(c.Tokens(), ops...)...)
+			r.Stat("class.prl-sweep", 1)
+		}
 	}
 }
